@@ -398,6 +398,10 @@ func (r *runner) apply(op Op) (err error) {
 		want, ok := m.vers[v][k]
 		got, x2 := il.Read(K)
 		r.expectGet(fmt.Sprintf("ImmutableLedgerAt(%d).Read", v), k, got, x2, want, ok)
+		// Get goes through the handle's own (fresh) overlay first: whatever is pending in the live ledger's
+		// overlays must not show in a historical handle (block execution reads stakes of height-4 this way)
+		got, x2 = il.Get(K)
+		r.expectGet(fmt.Sprintf("ImmutableLedgerAt(%d).Get", v), k, got, x2, want, ok)
 		all := map[int]uint64{}
 		_ = il.IterateReadAllItems(func(it *item) xerrors.XError {
 			all[int(it.K[0])-1] = it.V
